@@ -6,6 +6,7 @@ A_NUM = "01.-+eE_ /nNaAiIfFjJ"
 A_ISO = "0129-:T.+Z W"
 A_RE = "ab(*)[?+{1}|"
 A_B64 = "QU=-\x81"
+A_B64X = "QU=-\x81J/+ "
 A_HEX = "0f-{} zg"
 A_IP = "1.:/3 f0z"
 SCALARS = {
@@ -27,9 +28,13 @@ SCALARS = {
     "LiteralString": ("LiteralString", "sym", A_NUM),
     "UUID": ("UUID", "sel", A_HEX), "IPv4Address": ("IPv4Address", "sel", A_IP), "IPv6Address": ("IPv6Address", "sel", A_IP),
     "IPv4Network": ("IPv4Network", "sel", A_IP), "IPv4Interface": ("IPv4Interface", "sel", A_IP), "PurePosixPath": ("PurePosixPath", "sel", A_RE),
-    "Path": ("Path", "sel", A_RE), "datetime_ts": ("datetime", "sel", A_NUM), "date_ts": ("date", "sel", A_NUM), "datetime_fmt": ("datetime", "sel", A_ISO),
+    "Path": ("Path", "sel", A_RE),
+    "BytesIO": ("io.BytesIO", "sel", A_B64X), "IO_bytes": ("IO[bytes]", "sel", A_B64X), "ByteString": ("ByteString", "sel", A_B64X),
+    "PathLike_str": ("os.PathLike[str]", "sel", A_RE), "IPv6Network": ("IPv6Network", "sel", A_IP), "IPv6Interface": ("IPv6Interface", "sel", A_IP),
+    "PurePath": ("PurePath", "sel", A_RE), "PureWindowsPath": ("PureWindowsPath", "sel", A_RE),
+    "datetime_ts": ("datetime", "sel", A_NUM), "date_ts": ("date", "sel", A_NUM), "datetime_fmt": ("datetime", "sel", A_ISO),
 }
-EXTRA_ONLY_C04 = ("UUID", "IPv4Address", "IPv6Address", "IPv4Network", "IPv4Interface", "PurePosixPath", "Path", "datetime_ts", "date_ts", "datetime_fmt")
+EXTRA_ONLY_C04 = ("BytesIO", "IO_bytes", "ByteString", "PathLike_str", "IPv6Network", "IPv6Interface", "PurePath", "PureWindowsPath", "UUID", "IPv4Address", "IPv6Address", "IPv4Network", "IPv4Interface", "PurePosixPath", "Path", "datetime_ts", "date_ts", "datetime_fmt")
 # loaders that also get a selector-built run although their main run is fully symbolic (C constructors on the lax path)
 ALSO_SEL = {"int": A_NUM, "float": A_NUM, "str": A_NUM, "bytes": A_B64, "bytearray": A_B64, "LiteralString": A_NUM}
 
@@ -40,8 +45,9 @@ from fractions import Fraction
 from datetime import timedelta, date, time, datetime
 Atom = Union[None, bool, int, float, str, bytes]
 from uuid import UUID
-from ipaddress import IPv4Address, IPv6Address, IPv4Network, IPv4Interface
-from pathlib import PurePosixPath, Path
+from ipaddress import IPv4Address, IPv6Address, IPv4Network, IPv4Interface, IPv6Network, IPv6Interface
+from pathlib import PurePosixPath, Path, PurePath, PureWindowsPath
+import io, os
 from datetime import timezone
 from adaptix import datetime_by_timestamp, date_by_timestamp, datetime_by_format
 RS = six_retorts()
@@ -51,7 +57,9 @@ TYPES = {"int": int, "float": float, "str": str, "bool": bool, "Decimal": Decima
          "complex": complex, "bytes": bytes, "bytearray": bytearray, "NoneType": None, "timedelta": timedelta,
          "date": date, "time": time, "datetime": datetime, "Pattern": re.Pattern, "LiteralString": LiteralString}
 TYPES.update({"UUID": UUID, "IPv4Address": IPv4Address, "IPv6Address": IPv6Address, "IPv4Network": IPv4Network, "IPv4Interface": IPv4Interface,
-              "PurePosixPath": PurePosixPath, "Path": Path})
+              "PurePosixPath": PurePosixPath, "Path": Path, "BytesIO": io.BytesIO, "IO_bytes": IO[bytes], "ByteString": ByteString,
+              "PathLike_str": os.PathLike[str], "IPv6Network": IPv6Network, "IPv6Interface": IPv6Interface, "PurePath": PurePath,
+              "PureWindowsPath": PureWindowsPath})
 LD = {name: {k: r.get_loader(tp) for k, r in RS.items()} for name, tp in TYPES.items()}
 DP = {name: {k: r.get_dumper(tp) for k, r in RS.items()} for name, tp in TYPES.items()}
 LD["datetime_ts"] = {k: r.get_loader(datetime) for k, r in RS_TS.items()}
@@ -219,7 +227,7 @@ def l1_loader_module(prop: str, tier: str) -> Module:
                          BODY[prop].format(name=name, strict=strict, data=f"sel_atom(tag, n, c0, c1, c2, {ralpha!r}, c3)"),
                          pre=["0 <= tag <= 5", f"0 <= n <= {nmax}", f"0 <= c0 < {k}", f"0 <= c1 < {k}", f"0 <= c2 < {k}", f"0 <= c3 < {k}"],
                          timeout=tmo, family="L1 scalar loaders: selector-built realised atom (C-level constructors)",
-                         bounds=f"atoms None|bool|int in [-3,5] and +-10**400|8 pooled floats incl nan/inf|str over alphabet {ralpha!r} len<= {nmax}|bytes len<=1",
+                         bounds=f"atoms None|bool|int in [-3,5], +-10**400 and +-10**5000|10 pooled floats incl nan/inf|str over alphabet {ralpha!r} len<= {nmax}|bytes len<=1",
                          note="values cross a C boundary and are realised: solver-driven enumeration of the selector space")
                     m.ob(f"l1_{name}_{tagname}_shapes", "tag: int, c0: int, kind: int",
                          BODY[prop].format(name=name, strict=strict, data=f"shape(kind, sel_atom(tag, 1, c0, 0, 0, {ralpha!r}))"),
